@@ -70,6 +70,9 @@ LK == KV \cup {Txt(<<b_>>), Whole(5)}
 Pay(i, j) == IF j % 2 = 0 THEN Txt(<<114, 48 + i, 48 + j>>) ELSE Whole(100 * i + j)
 Table(kc, w) == Arr([i \in 1..Len(kc) |-> [j \in 1..w |-> IF j = 1 THEN kc[i] ELSE Pay(i, j)]])
 
+\* numbers that agree in their first nine digits are different keys (1999999998 / 1999999999 / 2000000000)
+KN == {Whole(1999999998), Whole(1999999999), Whole(2000000000)}
+
 Triples == {<<Txt(<<a_>>), Whole(2), Bool(TRUE)>>, <<Whole(10), Whole(20), Whole(30)>>,
             <<Txt(abc), Txt(<<b_>>), Rat(1, 2)>>}
 
@@ -103,6 +106,9 @@ InitCase ==
   \* --- MATCH exact: key at every position, duplicated, absent
   \/ \E k \in 1..MaxCol : \E c \in [1..k -> V], key \in V \cup {Whole(5), Txt(<<122, 122>>)} :
         (k < 4 \/ Keep(c, key)) /\ case = C("MATCH", <<key, ColArr(c), Whole(0)>>)
+  \/ \E k \in 1..3 : \E c \in [1..k -> KN], key \in KN : case = C("MATCH", <<key, ColArr(c), Whole(0)>>)
+  \/ \E kc \in [1..2 -> KN], key \in KN, ci \in 1..2 : case = C("VLOOKUP", <<key, Table(kc, 2), Whole(ci), Bool(FALSE)>>)
+  \/ \E c \in [1..2 -> KN], key \in KN : case = C("COUNTIF", <<ColArr(c), key>>)
   \* --- MATCH approximate (match_type 1 or omitted) on ascending data
   \/ \E k \in 1..MaxAsc : \E c \in [1..k -> NV], key \in NK :
         /\ Ascending(c)
@@ -163,7 +169,7 @@ LawCountPartition ==
 LawPlainIsEq ==
     (Done /\ F = "COUNTIF" /\ res.t = "num")
     => /\ (A[2].t = "txt" /\ OpPrefix(A[2].v) = "") => res = Count(A[1], Txt(<<61>> \o A[2].v))
-       /\ A[2].t = "num" => res = Count(A[1], Txt(<<61>> \o NumToText(A[2]).v))
+       /\ (A[2].t = "num" /\ NumToText(A[2]).t = "txt") => res = Count(A[1], Txt(<<61>> \o NumToText(A[2]).v))
 
 \* text is matched case-insensitively (operand and cells)
 LawCaseInsensitive ==
